@@ -72,6 +72,7 @@ def replay(b: dict) -> list[tuple[str, str]]:
         steps = b['steps']
         expect_enter_exc = steps[0]['exc']
         printed: dict[str, bytes] = {}
+        token_edited: set[str] = set()
         exc = ''
         parses = []
         orig_parse = parser_lib.Parser.parse
@@ -104,6 +105,11 @@ def replay(b: dict) -> list[tuple[str, str]]:
                     op = st['op']
                     if op == 'edit':
                         model_of(st['f']).raw_directives.append(models.Close.from_value(__import__('datetime').date(2001, 1, 1), 'Assets:X'))
+                    elif op == 'edit-token':
+                        # one token changed in place, same extent: "v" -> "w" in the open directive's meta item
+                        d0 = [d for d in model_of(st['f']).raw_directives if isinstance(d, models.Open)][0]
+                        d0.raw_meta[0].raw_value.value = 'w'
+                        token_edited.add(st['f'])
                     elif op == 'edit-revert':
                         m = model_of(st['f'])
                         m.raw_directives.append(models.Close.from_value(__import__('datetime').date(2001, 1, 1), 'Assets:X'))
@@ -160,7 +166,10 @@ def replay(b: dict) -> list[tuple[str, str]]:
             elif exp['content'] == 'edited':
                 if f in printed and data != printed[f]:
                     findings.append(('bytes', f'{REL[f]}: disk {data!r} is not the printed model {printed[f]!r}'))
-                if not data.startswith(orig[f].rstrip(b'\r\n')):
+                if f in token_edited:
+                    if data != orig[f].replace(b'kk: "v"', b'kk: "w"'):
+                        findings.append(('bytes', f'{REL[f]}: not the original with the one token replaced: {orig[f]!r} -> {data!r}'))
+                elif not data.startswith(orig[f].rstrip(b'\r\n')):
                     findings.append(('bytes', f'{REL[f]}: bytes outside the appended directive changed: {orig[f]!r} -> {data!r}'))
                 if data == orig[f]:
                     findings.append(('bytes', f'{REL[f]}: edit was not written'))
